@@ -88,6 +88,15 @@ def h_tt_get(ctx, ns, rho, where):
         ctx.claim('interpolant_equals_f', ctx.eq(y, f(x)))
     else:
         ctx.claim('outside_gets_fill_value', ctx.eq(y, z))
+    if where == 'inside':
+        # a batch that mixes points of the box with points above an upper / below a lower bound
+        xo = x.copy()
+        xo[d - 1] = b[d - 1] + 1
+        xl = x.copy()
+        xl[0] = a[0] - 1
+        ym = teneva.func_get(np.array([x, xo, xl, x]), A, a, b, z=z)
+        ctx.claim('mixed_batch_inside_values_outside_fill',
+                  ctx.all_([ctx.eq(ym[0], f(x)), ctx.eq(ym[1], z), ctx.eq(ym[2], z), ctx.eq(ym[3], f(x))]))
     yb = teneva.func_get(np.array([x, x]), A, a, b, z=z)
     ctx.claim('batch_equals_single', ctx.all_([ctx.eq(yb[0], y), ctx.eq(yb[1], y)]))
     # the fill value may be given as an integer: in-box values are unaffected by it
